@@ -12,7 +12,7 @@ from __future__ import annotations
 
 import random
 
-from .common import ElemError, SrcError
+from .common import ElemError, SrcError, unpp
 
 
 def gen_scenarios(rnd: random.Random, count, max_n=4):
@@ -29,7 +29,10 @@ def gen_scenarios(rnd: random.Random, count, max_n=4):
         prefail = sorted(idx[nf:nf + npf])
         srcfail = rnd.choice([0, 0, 0] + list(range(1, n + 2)))
         brk = rnd.choice([None, None] + list(range(1, n + 1))) if n else None
+        okidx = [i for i in range(1, n + 1) if i not in fail and i not in prefail]
+        retobj = sorted(rnd.sample(okidx, min(len(okidx), rnd.choice([0, 0, 1])))) if okidx else []
         out.append({'n': n, 'cap': 2 * conc, 'conc': conc, 'retexc': rnd.random() < 0.5, 'fail': fail, 'prefail': prefail,
+                    'retobj': retobj,
                     'srcfail': srcfail, 'srcbase': False, 'maybreak': brk is not None,
                     'mode': 'async' if variant == 'parmap_async' else 'sync', 'variant': variant,
                     'retx': rnd.random() < 0.6, 'break_at': brk, 'usepre': bool(prefail) or rnd.random() < 0.3,
@@ -82,12 +85,16 @@ def _make_scenario(sc):
     calls = [0] * (n + 2)
     running = {'now': 0, 'max': 0}
 
+    retobj = set(sc.get('retobj') or [])
+
     def pre(x):
         if x in prefail:
             raise ElemError(x, 'pre')
-        return x
+        return ('pp', x)      # TRANSFORMING preprocessor
 
     def classify_y(y):
+        if isinstance(y, ElemError) and y.site == 'returned':
+            return y.i, 'ok'
         if isinstance(y, ElemError):
             return y.i, 'err'
         if isinstance(y, tuple) and len(y) == 2 and y[0] == 'r':
@@ -123,6 +130,7 @@ def _make_scenario(sc):
                 raise SrcError('source fails')
 
         async def awork(x):
+            x = unpp(x)
             enter(x)
             try:
                 if durs[x]:
@@ -131,6 +139,8 @@ def _make_scenario(sc):
                     await asyncio.sleep(0)
                 if x in fail:
                     raise ElemError(x)
+                if x in retobj:
+                    return ElemError(x, 'returned')
                 return ('r', x)
             finally:
                 running['now'] -= 1
@@ -151,6 +161,7 @@ def _make_scenario(sc):
                         closed('none', 0)
                         break
                     x, y = v if retx else (0, v)
+                    x = x if isinstance(x, int) else -1
                     yi, kind = classify_y(y)
                     detsched.emit('Yield', x=x, y=yi, kind=kind)
                     k += 1
@@ -169,6 +180,7 @@ def _make_scenario(sc):
 
     # aparmap_sync
     def work(x):
+        x = unpp(x)
         enter(x)
         try:
             if durs[x]:
@@ -177,6 +189,8 @@ def _make_scenario(sc):
                 detsched.checkpoint('work')
             if x in fail:
                 raise ElemError(x)
+            if x in retobj:
+                return ElemError(x, 'returned')
             return ('r', x)
         finally:
             running['now'] -= 1
@@ -204,6 +218,7 @@ def _make_scenario(sc):
                     closed('none', 0)
                     break
                 x, y = v if retx else (0, v)
+                x = x if isinstance(x, int) else -1
                 yi, kind = classify_y(y)
                 detsched.emit('Yield', x=x, y=yi, kind=kind)
                 k += 1
